@@ -102,6 +102,8 @@ func specSort(ty string) smt.Sort {
 		return smt.Seq
 	case "slice":
 		return smt.Slice
+	case "strlist":
+		return smt.SList
 	}
 	return smt.Int
 }
@@ -131,6 +133,19 @@ func (fc *FnCtx) loopHeader(li *loopInfo, st *State) *State {
 	st2 := st.clone()
 	for _, k := range smt.SortedKeys(li.written) {
 		fc.havocKey(st2, k)
+	}
+	for _, k := range smt.SortedKeys(li.writtenRefs) {
+		if li.written[k] {
+			continue
+		}
+		hs, ok := fc.heapSorts[k]
+		if !ok {
+			continue
+		}
+		_, vs, _ := smt.ArrParts(hs)
+		for _, rn := range smt.SortedKeys(li.writtenRefs[k]) {
+			fc.setHeapQuiet(st2, k, smt.Store(fc.getHeap(st2, k, vs), li.writtenRefs[k][rn], fc.S.Fresh("hvl_"+k, vs)))
+		}
 	}
 	for _, in := range li.header.Instrs {
 		phi, ok := in.(*ssa.Phi)
@@ -270,6 +285,9 @@ func (fc *FnCtx) backEdges(b *ssa.BasicBlock, st *State) {
 func (fc *FnCtx) mapKeys(mt *types.Map) (dom, val string, ks, vs smt.Sort, ok bool) {
 	name := fc.P.TypeStr(mt, nil)
 	kk, vk := kindOf(mt.Key()), kindOf(mt.Elem())
+	if st, ok := mt.Elem().Underlying().(*types.Struct); ok && st.NumFields() == 0 {
+		vk = KInt // map[K]struct{}: a set; the value is irrelevant
+	}
 	if kk == KStruct || kk == KTuple || kk == KOther || vk == KStruct || vk == KTuple || vk == KOther {
 		return "", "", "", "", false
 	}
@@ -319,6 +337,13 @@ func (fc *FnCtx) lookup(x *ssa.Lookup, st *State, g *smt.Term, where string) Val
 		d := fc.readKey(st, dom, m, smt.Arr(ks, smt.Bool))
 		a := fc.readKey(st, val, m, smt.Arr(ks, vs))
 		present := smt.And(smt.Neq(m, smt.IntLit(0)), smt.Select(d, k))
+		if est, ok := mt.Elem().Underlying().(*types.Struct); ok && est.NumFields() == 0 {
+			v := fc.zeroVal(mt.Elem())
+			if x.CommaOk {
+				return Val{Fs: []Val{v, {T: fc.S.Define("mok", present), GoT: types.Typ[types.Bool]}}, GoT: x.Type()}
+			}
+			return v
+		}
 		z := fc.zeroVal(mt.Elem())
 		v := fc.loaded(fc.S.Define("mv", smt.Ite(present, smt.Select(a, k), z.T)), mt.Elem())
 		if x.CommaOk {
